@@ -12,4 +12,5 @@ VIEW View
 INVARIANT TypeOK
 INVARIANT Conservation
 INVARIANT NeverTooMany
+INVARIANT NoTaskBeyondItsLargestShare
 PROPERTY Monotone
